@@ -91,6 +91,13 @@ _CMP = {
 
 ANALOG_PIN_RE = re.compile(r"^A\d+$")
 
+# Verification hook (guarded): with REDUINO_VERIF=1 every source line that is skipped without
+# producing a node or an error is recorded here as (scope, depth, reason, line).
+import os as _verif_os
+
+_VERIF_SKIP_LOG = [] if _verif_os.environ.get("REDUINO_VERIF") == "1" else None
+
+
 
 def _escape_string_literal(value: str) -> str:
     """Escape a Python string literal into a C/C++ literal body."""
@@ -4116,6 +4123,8 @@ def _parse_simple_lines(
                 and isinstance(expr_node.func, ast.Name)
                 and expr_node.func.id == "print"
             ):
+                if _VERIF_SKIP_LOG is not None:
+                    _VERIF_SKIP_LOG.append((scope, depth, "print", line))
                 i += 1
                 continue
             try:
@@ -4171,6 +4180,8 @@ def _parse_simple_lines(
                 continue
 
         # unknown → ignore
+        if _VERIF_SKIP_LOG is not None:
+            _VERIF_SKIP_LOG.append((scope, depth, "unknown", line))
         i += 1
 
     return body
